@@ -740,6 +740,24 @@ func checkForget(c *Ctx) {
 			if ifs, ok := x.(*ast.IfStmt); ok && encloses(ifs.Body, call.Pos()) && isSD(ifs.Cond) {
 				guarded = true
 			}
+			// or an earlier `if !shouldDelete(n) { return }` in an enclosing block
+			if blk, ok := x.(*ast.BlockStmt); ok {
+				for _, st := range blk.List {
+					if st.Pos() >= call.Pos() {
+						break
+					}
+					ifs, ok := st.(*ast.IfStmt)
+					if !ok || ifs.Else != nil || len(ifs.Body.List) == 0 {
+						continue
+					}
+					if _, isRet := ifs.Body.List[len(ifs.Body.List)-1].(*ast.ReturnStmt); !isRet {
+						continue
+					}
+					if u, ok := ast.Unparen(ifs.Cond).(*ast.UnaryExpr); ok && u.Op == token.NOT && isSD(u.X) {
+						guarded = true
+					}
+				}
+			}
 		}
 		c.check(guarded, "forget.release-guarded", callKey(fg, call), p.Pos(call.Pos()),
 			"the node / its inode number is released only inside `if shouldDelete(n)`",
